@@ -178,6 +178,43 @@ func TestGovcReplay(t *testing.T) {
 		return c.runReplayTest("pkg/x25", map[string]string{"test.go": test}, "TestGovcReplay")
 	case fn == "(frame.V2Frame).marshalTo" || fn == "(frame.V1Frame).marshalTo" || fn == "(frame.V2Frame).GenerateChecksum" || fn == "(frame.V1Frame).GenerateChecksum":
 		return c.replayFrameFields(ns, v, m, string(oracle))
+	case fn == "(*gomavlib.Channel).initialize" || fn == "(*frame.ReadWriter).Initialize":
+		// plumbing: a node with distinct keys and ids; the channel's reader and writer must get the right ones
+		test := `package gomavlib
+
+import ("fmt"; "net"; "testing"; "github.com/bluenviron/gomavlib/v3/pkg/frame"; "github.com/bluenviron/gomavlib/v3/pkg/streamwriter")
+
+func TestGovcReplay(t *testing.T) {
+	confirmed := false
+	bad := func(format string, a ...interface{}) { confirmed = true; fmt.Printf("REPLAY-CONFIRMED Channel.initialize: "+format+"\n", a...) }
+	in, out := frame.NewV2Key([]byte("incoming-key-incoming-key-incomi")), frame.NewV2Key([]byte("outgoing-key-outgoing-key-outgoi"))
+	for _, comp := range []byte{0, 9} {
+		for _, ver := range []Version{V1, V2} {
+			for _, withOut := range []bool{false, true} {
+				n := &Node{OutVersion: ver, OutSystemID: 77, OutComponentID: comp, InKey: in}
+				if withOut { n.OutKey = out }
+				a, b := net.Pipe()
+				ch := &Channel{node: n, rwc: a}
+				err := ch.initialize()
+				b.Close(); a.Close()
+				refuse := withOut && ver != V2
+				if (err != nil) != refuse { bad("version %d, out key %v: err=%v, must be refused=%v", ver, withOut, err, refuse); continue }
+				if err != nil { continue }
+				if ch.frameWriter == nil || ch.frameWriter.Reader == nil || ch.frameWriter.Reader.InKey != in { bad("the channel reader does not verify with the node's InKey") }
+				if ch.streamWriter == nil { bad("no stream writer"); continue }
+				if ch.streamWriter.Key != n.OutKey { bad("the channel writer signs with %p, the node's OutKey is %p", ch.streamWriter.Key, n.OutKey) }
+				if ch.streamWriter.SystemID != 77 { bad("system id %d, configured 77", ch.streamWriter.SystemID) }
+				wantComp := comp; if comp == 0 { wantComp = 1 }
+				if ch.streamWriter.ComponentID != wantComp { bad("component id %d, expected %d", ch.streamWriter.ComponentID, wantComp) }
+				if (ver == V2) != (ch.streamWriter.Version == streamwriter.V2) { bad("node version %d gives writer version %d", ver, ch.streamWriter.Version) }
+				if ch.streamWriter.FrameWriter != ch.frameWriter.Writer { bad("the stream writer does not drive the channel's frame writer") }
+			}
+		}
+	}
+	if !confirmed { fmt.Println("REPLAY-NOT-REPRODUCED") }
+}
+`
+		return c.runReplayTest(".", map[string]string{"test.go": test}, "TestGovcReplay")
 	case fn == "(*tlog.Writer).Write":
 		// a fixed family of entry sequences (encodable and unencodable frames, times before and after 1970, a failing
 		// file) written through the real writer; the file must be the concatenation of timestamp+frame of exactly the
